@@ -129,6 +129,27 @@ def check_text(module, text, res, tag=""):
         if text.count(marker) != 1 + extra:
             res.fail(tag + "marker-elsewhere", f"{what}: marker {marker} occurs {text.count(marker)} times in the page")
 
+    def check_shared(lines, marker, block_lines, level, what):
+        """The class and one of its members carry the same doccomment: it must occur twice in the class block,
+        first with the class's indentation, then with the member's."""
+        pref = " " * (3 * level)
+        hits = [i for i, l in enumerate(block_lines) if marker in l]
+        if len(hits) != 2 or text.count(marker) != 2:
+            res.fail(tag + "marker-in-own-block", f"{what}: shared marker {marker} occurs {len(hits)} times in the block")
+            return
+        mi = next(i for i, l in enumerate(lines) if marker in l)
+        start = hits[level - 1] - mi
+        for off, want in enumerate(lines):
+            got = block_lines[start + off] if 0 <= start + off < len(block_lines) else None
+            if want.strip() == "":
+                if got is None or got.strip() != "":
+                    res.fail(tag + "blank-line", f"{what}: line {off}: expected blank got {got!r}")
+                    return
+            elif got != pref + want:
+                res.fail(tag + ("line-indent" if got is not None and got.strip() == want.strip() else "line-text"),
+                         f"{what}: line {off}: expected {pref + want!r} got {got!r}")
+                return
+
     md = module.get("moddoc")
     if md is not None and md.get("marker"):
         if len(mod_blocks) != 1:
@@ -143,6 +164,10 @@ def check_text(module, text, res, tag=""):
             continue        # e.g. member of a class that the model does not show (cannot happen with defaults)
         idx, level = by_marker[d["marker"]]
         extra = 1 if it["k"] == "option" and d["marker"] in it.get("help", "") else 0
+        shared = [x for x, _, _ in G.walk(module["items"]) if x.get("doc") and x["doc"].get("marker") == d["marker"]]
+        if len(shared) == 2:
+            check_shared(d["lines"], d["marker"], ent_blocks[idx][2], 1 if it["k"] == "class" else 2, f"{it['k']} #{idx} (shared doc)")
+            continue
         check_doc(d["lines"], d["marker"], ent_blocks[idx][2], level, f"{it['k']} #{idx}", extra)
 
 
@@ -181,7 +206,15 @@ def prepare(module):
     """'<<P0>>' in a doc line stands for the first parameter of the implementing definition (members) or 'x'."""
     import copy
     mod = copy.deepcopy(module)
+    for it, _, parent in G.walk(mod["items"]):
+        if it["k"] in ("member", "attr") and parent is not None and parent["k"] == "class" and parent.get("doc") and it.get("doc") \
+                and parent["doc"].get("marker") and len(parent["doc"]["lines"]) >= 2 and \
+                int("".join(ch for ch in parent["doc"]["marker"] if ch.isdigit()) or 0) % 2 == 0 and not parent.get("_shared"):
+            it["doc"] = copy.deepcopy(parent["doc"])        # identical text, one level deeper
+            it["doc"]["shared"] = True
+            parent["_shared"] = True
     for it, _, _ in G.walk(mod["items"]):
+        it.pop("_shared", None)
         d = it.get("doc")
         if d:
             p0 = it["impl"]["params"][0] if it["k"] == "member" and it["impl"]["params"] else "x"
@@ -205,6 +238,8 @@ def evaluate(case):
     res.labels += sorted(labels)
     if module.get("moddoc"):
         res.labels.append("module-doc")
+    if any(it.get("doc") and it["doc"].get("shared") for it, _, _ in G.walk(module["items"])):
+        res.labels.append("same-doc-on-class-and-member")
     if nt:
         res.sample = {"source": short(src, 700)}
     run = document_text(src, real_settings())
